@@ -8,8 +8,11 @@
 
 mod util;
 mod variation;
+mod weighted;
+mod ordering;
 mod plushy;
 mod proj;
+mod selection;
 mod stack;
 mod vm;
 
@@ -24,11 +27,19 @@ fn main() {
     let rc = match args[0].as_str() {
         "stack-replay" => stack::replay(rest),
         "stack-trace" => stack::trace(rest),
+        "ord-replay" => ordering::replay(rest),
+        "ord-construct" => ordering::construct_trace(rest),
         "plushy-replay" => plushy::replay(rest),
         "plushy-trace" => plushy::trace(rest),
         "var-replay" => variation::replay(rest),
         "var-trace" => variation::trace(rest),
         "var-segments" => variation::segments(rest),
+        "sel-replay" => selection::replay(rest),
+        "sel-law" => selection::law(rest),
+        "sel-trace" => selection::trace(rest),
+        "wt-replay" => weighted::replay(rest),
+        "wt-law" => weighted::law(rest),
+        "wt-nested-trace" => weighted::nested_trace(rest),
         "vm-step-replay" => vm::step_replay(rest),
         "vm-run-replay" => vm::run_replay(rest),
         "vm-trace" => vm::trace(rest),
